@@ -546,11 +546,17 @@ async fn delete_user(h: &mut Harness, c: usize, user: &IdRef) {
     if let (Ok(()), Some(uid)) = (result, uid) {
         h.model.users.remove(&uid);
         // connections of the deleted user are de-authenticated (and dropped by the server's client list)
+        let mut gone: Vec<u32> = Vec::new();
         for s in h.model.sessions.iter_mut() {
             if s.user == uid {
                 s.user = 0;
                 s.deleted_user = Some(uid);
+                gone.extend(s.client_id);
             }
+        }
+        // ... and leave their consumer groups at once, not only when the connection is found dead
+        for id in gone {
+            crate::harness_grp::forget_client(h, id);
         }
         *h.stats.ops_ok.entry("delete_user").or_insert(0) += 1;
     }
